@@ -50,6 +50,9 @@ func mutatePayload(p ctrlertypes.ITrxPayload, r *rand.Rand) map[string]ctrlertyp
 		out["unstaking.txhash"] = &ctrlertypes.TrxPayloadUnstaking{TxHash: flip(q.TxHash, r.Intn(32))}
 	case *ctrlertypes.TrxPayloadWithdraw:
 		out["withdraw.reqamt"] = &ctrlertypes.TrxPayloadWithdraw{ReqAmt: new(uint256.Int).AddUint64(q.ReqAmt, 1)}
+		for _, k := range []uint{64, 128, 255} {
+			out[fmt.Sprintf("withdraw.reqamt+2^%d", k)] = &ctrlertypes.TrxPayloadWithdraw{ReqAmt: new(uint256.Int).Add(q.ReqAmt, new(uint256.Int).Lsh(uint256.NewInt(1), k))}
+		}
 	case *ctrlertypes.TrxPayloadContract:
 		out["contract.data"] = &ctrlertypes.TrxPayloadContract{Data: flip(q.Data, r.Intn(64))}
 		out["contract.data+byte"] = &ctrlertypes.TrxPayloadContract{Data: append(append([]byte(nil), q.Data...), 0)}
@@ -62,30 +65,39 @@ func mutatePayload(p ctrlertypes.ITrxPayload, r *rand.Rand) map[string]ctrlertyp
 	case *ctrlertypes.TrxPayloadVoting:
 		out["voting.txhash"] = &ctrlertypes.TrxPayloadVoting{TxHash: flip(q.TxHash, r.Intn(32)), Choice: q.Choice}
 		out["voting.choice"] = &ctrlertypes.TrxPayloadVoting{TxHash: q.TxHash, Choice: q.Choice + 1}
+		out["voting.choice+2^8"] = &ctrlertypes.TrxPayloadVoting{TxHash: q.TxHash, Choice: q.Choice + 1<<8}
+		out["voting.choice+2^16"] = &ctrlertypes.TrxPayloadVoting{TxHash: q.TxHash, Choice: q.Choice + 1<<16}
+		out["voting.choice-sign"] = &ctrlertypes.TrxPayloadVoting{TxHash: q.TxHash, Choice: -q.Choice - 1}
 	case *ctrlertypes.TrxPayloadProposal:
-		c := *q
-		c.Message += "x"
-		out["proposal.message"] = &c
-		c = *q
-		c.StartVotingHeight++
-		out["proposal.start"] = &c
-		c = *q
-		c.VotingPeriodBlocks++
-		out["proposal.period"] = &c
-		c = *q
-		c.ApplyingHeight++
-		out["proposal.applying"] = &c
-		c = *q
-		c.OptType ^= 1
-		out["proposal.opttype"] = &c
-		c = *q
-		c.Options = append(append([][]byte(nil), q.Options...), []byte("{}"))
-		out["proposal.options+1"] = &c
-		if len(q.Options) > 0 {
-			c = *q
+		// every alteration works on its own copy
+		alt := func(name string, f func(c *ctrlertypes.TrxPayloadProposal)) {
+			c := *q
 			c.Options = append([][]byte(nil), q.Options...)
-			c.Options[0] = flip(c.Options[0], r.Intn(8))
-			out["proposal.option0"] = &c
+			f(&c)
+			out[name] = &c
+		}
+		alt("proposal.message", func(c *ctrlertypes.TrxPayloadProposal) { c.Message += "x" })
+		alt("proposal.start", func(c *ctrlertypes.TrxPayloadProposal) { c.StartVotingHeight++ })
+		alt("proposal.period", func(c *ctrlertypes.TrxPayloadProposal) { c.VotingPeriodBlocks++ })
+		alt("proposal.applying", func(c *ctrlertypes.TrxPayloadProposal) { c.ApplyingHeight++ })
+		for _, k := range []uint{8, 16, 32, 48, 63} {
+			k := k
+			alt(fmt.Sprintf("proposal.start+2^%d", k), func(c *ctrlertypes.TrxPayloadProposal) { c.StartVotingHeight += int64(1) << k })
+			alt(fmt.Sprintf("proposal.period+2^%d", k), func(c *ctrlertypes.TrxPayloadProposal) { c.VotingPeriodBlocks += int64(1) << k })
+			alt(fmt.Sprintf("proposal.applying+2^%d", k), func(c *ctrlertypes.TrxPayloadProposal) { c.ApplyingHeight += int64(1) << k })
+		}
+		alt("proposal.opttype+2^16", func(c *ctrlertypes.TrxPayloadProposal) { c.OptType += 1 << 16 })
+		alt("proposal.opttype", func(c *ctrlertypes.TrxPayloadProposal) { c.OptType ^= 1 })
+		alt("proposal.options+1", func(c *ctrlertypes.TrxPayloadProposal) { c.Options = append(c.Options, []byte("{}")) })
+		if len(q.Options) > 0 {
+			alt("proposal.option0", func(c *ctrlertypes.TrxPayloadProposal) { c.Options[0] = flip(c.Options[0], r.Intn(8)) })
+			alt("proposal.options-swap", func(c *ctrlertypes.TrxPayloadProposal) {
+				if len(c.Options) > 1 {
+					c.Options[0], c.Options[1] = c.Options[1], c.Options[0]
+				} else {
+					c.Options = append(c.Options, c.Options[0])
+				}
+			})
 		}
 	}
 	return out
@@ -177,6 +189,24 @@ func Probe(seed int64, n int) *ProbeResult {
 		add("gas", func(t *ctrlertypes.Trx) { t.Gas++ })
 		add("gasprice", func(t *ctrlertypes.Trx) { t.GasPrice = new(uint256.Int).AddUint64(t.GasPrice, 1) })
 		add("gas<->nonce", func(t *ctrlertypes.Trx) { t.Gas, t.Nonce = t.Nonce, t.Gas+1 })
+		// shifts by a power of two: an integer field signed through a narrower type would not notice
+		for _, k := range []uint{8, 16, 32, 63} {
+			k := k
+			add(fmt.Sprintf("version+2^%d", k), func(t *ctrlertypes.Trx) { t.Version += uint32(1) << (k % 32) })
+			add(fmt.Sprintf("time+2^%d", k), func(t *ctrlertypes.Trx) { t.Time += int64(1) << k })
+			add(fmt.Sprintf("nonce+2^%d", k), func(t *ctrlertypes.Trx) { t.Nonce += uint64(1) << k })
+			add(fmt.Sprintf("gas+2^%d", k), func(t *ctrlertypes.Trx) { t.Gas += uint64(1) << k })
+			add(fmt.Sprintf("type+2^%d", k), func(t *ctrlertypes.Trx) { t.Type += int32(1) << (k % 31) })
+		}
+		for _, k := range []uint{64, 128, 192, 255} {
+			k := k
+			add(fmt.Sprintf("amount+2^%d", k), func(t *ctrlertypes.Trx) {
+				t.Amount = new(uint256.Int).Add(t.Amount, new(uint256.Int).Lsh(uint256.NewInt(1), k))
+			})
+			add(fmt.Sprintf("gasprice+2^%d", k), func(t *ctrlertypes.Trx) {
+				t.GasPrice = new(uint256.Int).Add(t.GasPrice, new(uint256.Int).Lsh(uint256.NewInt(1), k))
+			})
+		}
 		add("sig-byte", func(t *ctrlertypes.Trx) { t.Sig = flip(t.Sig, r.Intn(64)) })
 		if ty == ctrlertypes.TRX_TRANSFER {
 			add("type", func(t *ctrlertypes.Trx) { t.Type = ctrlertypes.TRX_STAKING })
